@@ -1,5 +1,6 @@
 """C02 -- Within a cycle every reader runs after its writer, in every scheduler.  (DESIGN.md section 4, C02)"""
 import ast
+import re
 
 from sa.astutil import (norm, guards_of, walk_no_nested, always_exits, parent, enclosing, stmt_of,
                         preceding_stmts, body_walk, qualname)
@@ -256,7 +257,15 @@ def rule_overlap(repo):
     ok = '_dsl.slices' in txt or 'slices' in txt
     (r.ok if ok else r.bad)(m, 'Signal.get_sibling_slices', 'enumerates the parent signal\'s slices',
                             *([] if ok else ["sibling slices are not taken from the parent's slice table", g.lineno]))
-    r.require_floor(3)
+    # ... on every call: new slices can appear after the first query (add_connection on a fresh slice after elaboration)
+    me = g.args.args[0].arg
+    memo = [n for n in ast.walk(g) if isinstance(n, (ast.Assign, ast.AugAssign)) for t in (n.targets if isinstance(n, ast.Assign) else [n.target])
+            if isinstance(t, ast.Attribute) and norm(t).startswith(me + '.')]
+    (r.bad if memo else r.ok)(m, 'Signal.get_sibling_slices', 'computed from the slice table on every call (no memo on the signal)',
+                              *([f"the result is stored on the signal (`{norm(memo[0])[:70]}`) and handed out again: a slice created later "
+                                 f"(add_connection on a new slice of the same signal) is missing from the siblings, so an overlapping "
+                                 f"writer gets no edge", memo[0].lineno] if memo else []))
+    r.require_floor(4)
     return r
 
 
@@ -1085,7 +1094,14 @@ def rule_index_scope(repo):
                 okg = any((norm(g.test) == f"{x} in self.locals" and g.polarity is False) or
                           (norm(g.test) == f"{x} not in self.locals" and g.polarity is True) for g in shadow)
                 cons = f"{f.name}: `{norm(t.test)}` -> constant"
-                if okg and has_locals:
+                # Python resolves the enclosing scope before module globals: the closure test must have failed already
+                clo = any(norm(g.test) == f"{x} in self.closure" and g.polarity is False for g in gs if g.kind in ('if', 'exit')) or \
+                    any(norm(g.test) == f"{x} not in self.closure" and g.polarity is True for g in gs if g.kind in ('if', 'exit'))
+                if okg and has_locals and not clo:
+                    r.bad(m, f"DetectVarNames.{f.name}", cons,
+                          f"`{x}` is looked up in the module globals before the block's closure variables: a constructor parameter that has "
+                          f"the same name as a module-level global is resolved to the GLOBAL's value -- the wrong list element is recorded", t.lineno)
+                elif okg and has_locals:
                     r.ok(m, f"DetectVarNames.{f.name}", cons)
                 else:
                     r.bad(m, f"DetectVarNames.{f.name}", cons,
@@ -1094,7 +1110,216 @@ def rule_index_scope(repo):
                           f"regs[1] as written -- missing constraints, registers never double-buffered", t.lineno)
     if n < 3:
         raise AnalysisError("index-constant resolution sites not found")
-    r.require_floor(3)
+    # the parsed names are cached per CLASS: a global / closure name must be recorded symbolically ((is_closure, name)) and resolved
+    # per instance at elaboration; reading its VALUE while parsing freezes the first instance's (first design's) value
+    for f in copies:
+        me = f.args.args[0].arg
+        reads = [x for x in ast.walk(f) if isinstance(x, ast.Subscript) and norm(x.value) in (f"{me}.globals", f"{me}.closure")] + \
+                [x for x in ast.walk(f) if isinstance(x, ast.Call) and isinstance(x.func, ast.Attribute) and x.func.attr == 'get'
+                 and norm(x.func.value) in (f"{me}.globals", f"{me}.closure")]
+        cons = f"{f.name}: index names are recorded symbolically"
+        if reads:
+            r.bad(m, f"DetectVarNames.{f.name}", cons, f"`{norm(reads[0])}` reads the VALUE of a global / closure name while parsing; the result is "
+                  f"cached per class (cls._name_rd / _name_wr), so every later instance -- and every later design built in the same process "
+                  f"after the constant changed -- reuses the first value: the wrong list element is recorded as written / double-buffered",
+                  reads[0].lineno)
+        else:
+            r.ok(m, f"DetectVarNames.{f.name}", cons)
+    r.require_floor(4)
+    return r
+
+
+def rule_constraint_entry(repo):
+    """How explicit constraints enter the graph: the sign recorded for RD/WR(x) vs U(blk), and the normalisation of method
+    operands, decide which way round an edge is built later."""
+    r = RuleResult('R-C02-constraint-entry', "add_constraints records RD/WR(x) < U(b) with sign +1 and U(b) < RD/WR(x) with sign -1 under x "
+                                             "(the convention GenDAGPass decodes); every operand of a method constraint is normalised to the "
+                                             "underlying method by the same case split")
+    m = repo.mod(L2)
+    f = m.get_func('ComponentLevel2.add_constraints')
+    fq = 'ComponentLevel2.add_constraints'
+    loops = [n for n in f.body if isinstance(n, ast.For)]
+    if len(loops) != 1 or not isinstance(loops[0].target, ast.Tuple) or len(loops[0].target.elts) != 3:
+        raise AnalysisError(f"{fq}: loop over (x0, x1, is_equal) not found")
+    a0, a1, aeq = [norm(e) for e in loops[0].target.elts]
+    kinds = {'U': ('U',), 'RD': ('RD', 'ValueConstraint'), 'WR': ('WR', 'ValueConstraint')}
+    tags = {}
+    for cls in ('U', 'RD', 'WR', 'ValueConstraint'):
+        tags[cls] = (lambda v, cls=cls: isinstance(v, Obj) and cls in kinds[v.tag])
+    tags['(RD, WR)'] = tags['(WR, RD)'] = lambda v: isinstance(v, Obj) and v.tag in ('RD', 'WR')
+    for vk in ('RD', 'WR'):
+        for left_is_value in (True, False):
+            rec = []
+
+            def hook(ev, call, rec=rec):
+                fn = call.func
+                if isinstance(fn, ast.Attribute) and fn.attr == 'add' and isinstance(fn.value, ast.Subscript):
+                    rec.append((norm(fn.value.value), ev.ev(fn.value.slice), ev.ev(call.args[0])))
+                    return None
+                if isinstance(fn, ast.Attribute) and fn.attr == 'add':
+                    rec.append((norm(fn.value), None, ev.ev(call.args[0])))
+                    return None
+                return NotImplemented
+
+            def leaf(e):
+                if isinstance(e, ast.Subscript) and norm(e.value).endswith('_constraints'):
+                    return ()
+                if isinstance(e, ast.Attribute) and norm(e).endswith('_constraints'):
+                    return ()
+                return NotImplemented
+            V, Ub = Obj(vk, var='X'), Obj('U', func='BLK')
+            env = {a0: V if left_is_value else Ub, a1: Ub if left_is_value else V, aeq: False}
+            ev = Evaluator(env, arith=True, isinstance_tags=tags, call_hook=hook, leaf=leaf)
+            out = ev.run(loops[0].body)
+            r.evaluations += 1
+            want_sign = 1 if left_is_value else -1
+            spelled = f"{vk}(x) < U(b)" if left_is_value else f"U(b) < {vk}(x)"
+            ok = out[0] == 'fall' and len(rec) == 1 and rec[0][0].endswith(f"{vk}_U_constraints") and rec[0][1] == 'X' and rec[0][2] == (want_sign, 'BLK')
+            (r.ok if ok else r.bad)(m, fq, f"{spelled} -> {vk}_U_constraints[x] gets ({want_sign:+d}, b)",
+                                    *([] if ok else [f"`{spelled}` is recorded as {rec if rec else out}: GenDAGPass reads sign +1 as 'the block accessing x runs "
+                                                     f"before b' -- the constraint is built the wrong way round (or under the wrong table / key)", f.lineno]))
+    # operand normalisation in GenDAGPass._process_methods
+    gm = repo.mod(GENDAG)
+    g = gm.get_func('GenDAGPass._process_methods')
+    chains = []
+    for n in ast.walk(g):
+        if isinstance(n, ast.If) and isinstance(n.test, ast.Call) and norm(n.test.func) == 'isinstance' and isinstance(n.test.args[0], ast.Name) \
+                and not (isinstance(getattr(n, '_parent', None), ast.If) and n in n._parent.orelse and len(n._parent.orelse) == 1):
+            v = n.test.args[0].id
+            arms, cur, dst = [], n, None
+            okshape = True
+            while True:
+                if not (len(cur.body) == 1 and isinstance(cur.body[0], ast.Assign) and isinstance(cur.body[0].targets[0], ast.Name)):
+                    okshape = False
+                    break
+                dst = cur.body[0].targets[0].id
+                classes = cur.test.args[1].elts if isinstance(cur.test.args[1], ast.Tuple) else [cur.test.args[1]]
+                arms.append((tuple(sorted(norm(c) for c in classes)), re.sub(rf"\b{v}\b", '$', norm(cur.body[0].value))))
+                if len(cur.orelse) == 1 and isinstance(cur.orelse[0], ast.If) and isinstance(cur.orelse[0].test, ast.Call) \
+                        and norm(cur.orelse[0].test.func) == 'isinstance' and norm(cur.orelse[0].test.args[0]) == v:
+                    cur = cur.orelse[0]
+                    continue
+                if len(cur.orelse) == 1 and isinstance(cur.orelse[0], ast.Assign):
+                    arms.append((('<else>',), re.sub(rf"\b{v}\b", '$', norm(cur.orelse[0].value))))
+                elif cur.orelse:
+                    okshape = False
+                break
+            if okshape and any('.method' in a[1] for a in arms):
+                chains.append((n, v, arms))
+    if len(chains) < 4:
+        raise AnalysisError(f"GenDAGPass._process_methods: expected the operand normalisations of `==` and `<` method constraints (4), found {len(chains)}")
+    ref = None
+    from collections import Counter
+    cnt = Counter(tuple(a) for _, _, a in chains)
+    ref = cnt.most_common(1)[0][0]
+    for n, v, arms in chains:
+        ok = tuple(arms) == ref
+        (r.ok if ok else r.bad)(gm, 'GenDAGPass._process_methods', f"operand `{v}` normalised by {[a[0] for a in arms]}",
+                                *([] if ok else [f"operand `{v}` is normalised by a different case split than its siblings ({[a[0] for a in ref]}): an interface "
+                                                 f"of the missing kind on this side of a constraint is compared as the interface object itself and never "
+                                                 f"matches the method the blocks call -- the ordering constraint is silently lost", n.lineno]))
+    r.require_floor(8)
+    return r
+
+
+def _cache_mutations(top):
+    """(tainted names, nested walkers reached, [(node, text)]): stores / mutating calls through names derived from the second
+    parameter of `top` (iteration, subscripting, unpacking, arguments of the nested functions)"""
+    funcs = [n for n in ast.walk(top) if isinstance(n, ast.FunctionDef)]
+    byname = {f.name: f for f in funcs if f is not top}
+    tainted = {top.args.args[1].arg}
+
+    def is_tainted(e):
+        while isinstance(e, (ast.Subscript, ast.Attribute, ast.Starred)):
+            e = e.value
+        return isinstance(e, ast.Name) and e.id in tainted
+
+    def names_of(t):
+        return [n.id for n in ast.walk(t) if isinstance(n, ast.Name) and isinstance(n.ctx, ast.Store)]
+    changed = True
+    while changed:
+        changed = False
+        for n in ast.walk(top):
+            new = []
+            if isinstance(n, ast.For):
+                it = n.iter
+                if isinstance(it, ast.Call) and norm(it.func) in ('enumerate', 'reversed', 'list', 'iter', 'zip') and it.args:
+                    hit = any(is_tainted(a) for a in it.args)
+                else:
+                    hit = is_tainted(it)
+                if hit:
+                    new = names_of(n.target)
+            elif isinstance(n, ast.Assign) and (is_tainted(n.value) or (isinstance(n.value, ast.Tuple) and any(is_tainted(x) for x in n.value.elts))):
+                for t in n.targets:
+                    if isinstance(t, (ast.Name, ast.Tuple, ast.List)):
+                        new += names_of(t)
+            elif isinstance(n, ast.Call) and isinstance(n.func, ast.Name) and n.func.id in byname:
+                params = [a.arg for a in byname[n.func.id].args.args]
+                for k, a in enumerate(n.args):
+                    if k < len(params) and is_tainted(a):
+                        new.append(params[k])
+                for kw in n.keywords:
+                    if kw.arg in params and is_tainted(kw.value):
+                        new.append(kw.arg)
+            for x in new:
+                if x not in tainted:
+                    tainted.add(x)
+                    changed = True
+    deep = sorted(f.name for f in byname.values() if any(a.arg in tainted for a in f.args.args))
+    MUT = {'append', 'extend', 'insert', 'pop', 'remove', 'clear', 'sort', 'reverse', 'update', 'add', 'discard', 'setdefault', 'popitem', '__setitem__'}
+    out = []
+    for n in ast.walk(top):
+        if isinstance(n, (ast.Assign, ast.AugAssign, ast.AnnAssign)):
+            tg = n.targets if isinstance(n, ast.Assign) else [n.target]
+            for t in tg:
+                for sub in ([t] if not isinstance(t, (ast.Tuple, ast.List)) else t.elts):
+                    if isinstance(sub, (ast.Subscript, ast.Attribute)) and is_tainted(sub.value):
+                        out.append((sub, f"`{norm(n)[:90]}` stores into the cached name list"))
+        elif isinstance(n, ast.Delete):
+            for t in n.targets:
+                if isinstance(t, ast.Subscript) and is_tainted(t.value):
+                    out.append((t, f"`{norm(n)}` deletes from the cached name list"))
+        elif isinstance(n, ast.Call) and isinstance(n.func, ast.Attribute) and n.func.attr in MUT and is_tainted(n.func.value):
+            out.append((n, f"`{norm(n)[:90]}` mutates the cached name list"))
+    return tainted, deep, out
+
+
+_CACHE_PROBE = """
+def extract_obj_from_names(func, names):
+  def walk(obj, depth, idx):
+    cur = idx[depth]
+    if isinstance(cur, tuple):
+      cur = 3
+      idx[depth] = cur
+  for obj_name, nodelist, op in names:
+    field, idx = obj_name[0]
+    walk(None, 0, idx)
+"""
+
+
+def rule_cache_readonly(repo):
+    """The parsed read/write name lists are cached per CLASS; every instance resolves closure / global index names against its
+    own values while walking them.  Writing a resolved value back into the cached structure makes the first instance's value
+    the answer for all later instances of the class."""
+    r = RuleResult('R-C02-cache-readonly', "the per-class cached name lists are only read while an instance materialises its objects: "
+                                           "no store, in-place update or mutating call reaches them")
+    m = repo.mod(L2)
+    top = m.get_func('ComponentLevel2._elaborate_read_write_func.extract_obj_from_names')
+    fq = 'ComponentLevel2._elaborate_read_write_func.extract_obj_from_names'
+    # positive example: the detector must recognise a write-back (expected count on the real tree is zero)
+    _, pdeep, pout = _cache_mutations(ast.parse(_CACHE_PROBE).body[0])
+    if pdeep != ['walk'] or len(pout) != 1:
+        raise AnalysisError("R-C02-cache-readonly: embedded positive example not recognised")
+    tainted, deep, out = _cache_mutations(top)
+    if not deep:
+        raise AnalysisError(f"{fq}: the cached name list does not flow into the nested walkers any more (model out of date)")
+    for node, text in out:
+        r.bad(m, fq, text, "the list belongs to the class-level cache (cls._name_rd / _name_wr): the value resolved for this instance "
+              "(closure / global index) is reused by every later instance of the class -- a second instance built with another "
+              "parameter is judged (multi-writer, constraints) by the first instance's indices", node.lineno)
+    if not out:
+        r.ok(m, fq, f"cache-derived names {sorted(tainted)}: read-only in {', '.join(deep)}")
+    r.require_floor(1)
     return r
 
 
@@ -1110,7 +1335,7 @@ def rule_scc_blocks(repo):
 
 
 RULES = [rule_visitor, rule_funcfold, rule_overlap, rule_pairing, rule_netblk, rule_kahn, rule_greenlet, rule_novar_cycle, rule_cache_scope,
-         rule_methods, rule_index_scope, rule_scc_blocks]
+         rule_methods, rule_index_scope, rule_scc_blocks, rule_cache_readonly, rule_constraint_entry]
 
 
 def _m(name, file, old, new, rule=None, count=1):
@@ -1118,10 +1343,21 @@ def _m(name, file, old, new, rule=None, count=1):
 
 
 MUTANTS = [
+    _m('index-global-before-closure', ASTH, "          elif x in self.closure: n = (True, x)\n          elif x in self.globals: n = (False, x)\n", "          elif x in self.globals: n = (False, x)\n          elif x in self.closure: n = (True, x)\n", 'R-C02-index-scope', count='first'),
+    _m('index-global-int-folded-at-parse', ASTH, "          elif x in self.globals: n = (False, x)\n", "          elif x in self.globals:\n            n = self.globals[x] if type(self.globals[x]) is int else (False, x)\n", 'R-C02-index-scope', count='first'),
+    _m('constraint-sign-after-swap', L2, "        sign = 1 # RD(x) < U is 1, RD(x) > U is -1\n        if isinstance( x1, ValueConstraint ):\n          sign = -1\n          x0, x1 = x1, x0 # Make sure x0 is RD/WR(...) and x1 is U(...)\n",
+       "        if isinstance( x1, ValueConstraint ):\n          x0, x1 = x1, x0 # Make sure x0 is RD/WR(...) and x1 is U(...)\n        sign = -1 if isinstance( x0, ValueConstraint ) else 1\n", 'R-C02-constraint-entry'),
+    _m('constraint-wr-into-rd-table', L2, "          s._dsl.WR_U_constraints[ x0.var ].add( (sign, x1.func) )", "          s._dsl.RD_U_constraints[ x0.var ].add( (sign, x1.func) )", 'R-C02-constraint-entry'),
+    _m('methods-left-operand-no-blocking-ifc', GENDAG, "      elif isinstance( x, (NonBlockingIfc, BlockingIfc) ):\n        xx = x.method.method\n      else:\n        xx = x\n\n      if   isinstance( y, MethodPort ):\n        yy = y.method\n      elif isinstance( y, (NonBlockingIfc, BlockingIfc) ):\n        yy = y.method.method\n      else:\n        yy = y\n\n      pred[",
+       "      elif isinstance( x, NonBlockingIfc ):\n        xx = x.method.method\n      else:\n        xx = x\n\n      if   isinstance( y, MethodPort ):\n        yy = y.method\n      elif isinstance( y, (NonBlockingIfc, BlockingIfc) ):\n        yy = y.method.method\n      else:\n        yy = y\n\n      pred[", 'R-C02-constraint-entry'),
+    _m('sibling-slices-memoised', CONN, "      parent = s.get_parent_object()\n      ret = list(parent._dsl.slices.values())\n      ret.remove( s )\n      return ret",
+       "      try:\n        return s._dsl.sibling_slices\n      except AttributeError:\n        parent = s.get_parent_object()\n        ret = list(parent._dsl.slices.values())\n        ret.remove( s )\n        s._dsl.sibling_slices = ret\n        return ret", 'R-overlap'),
+    _m('cache-index-written-back', L2, "            current_idx = _closure[ name ] if is_closure else _globals[ name ]\n          elif isinstance( current_idx, slice ):",
+       "            current_idx = _closure[ name ] if is_closure else _globals[ name ]\n            idx[ idx_depth ] = current_idx\n          elif isinstance( current_idx, slice ):", 'R-C02-cache-readonly'),
     _m('pairing-merge-into-detached-copy', GENDAG, "    top._dag.all_constraints = { *U_U }\n    for (x, y) in impl_constraints:\n      if (y, x) not in U_U: # no conflicting expl\n        top._dag.all_constraints.add( (x, y) )",
        "    top._dag.all_constraints = { *U_U }\n    merged = { *U_U }\n    for (x, y) in impl_constraints:\n      if (y, x) not in U_U: # no conflicting expl\n        merged.add( (x, y) )", 'R-C02-pairing'),
     _m('explicit-snapshot-too-early', GENDAG, "    U_U, RD_U, WR_U, U_M         = top.get_all_explicit_constraints()\n", "    U_U, RD_U, WR_U, U_M         = top.get_all_explicit_constraints()\n    top._dag.all_constraints = { *U_U }\n", 'R-C02-pairing'),
-    _m('D20-loopvar-resolved-as-global', ASTH, "          if   x in self.locals:  pass\n          elif x in self.globals: n = (False, x)", "          if   x in self.globals: n = (False, x)", 'R-C02-index-scope', count=2),
+    _m('D20-loopvar-resolved-as-global', ASTH, "          if   x in self.locals:  pass\n          elif x in self.closure: n = (True, x)\n          elif x in self.globals: n = (False, x)", "          if   x in self.closure: n = (True, x)\n          elif x in self.globals: n = (False, x)", 'R-C02-index-scope', count=2),
     _m('check-schedule-render-unprotected', SIMPLE, "    try:\n      dump_dag( top, V_leftovers, E_leftovers )\n    except Exception:\n      pass\n", "    dump_dag( top, V_leftovers, E_leftovers )\n", 'R-kahn'),
     _m('methods-continuation-guarded', GENDAG, "              if (v, -1) not in visited:\n                visited.add( (v, -1) )\n                Q.append( (v, -1) )", "              if v in method_blks and (v, -1) not in visited:\n                visited.add( (v, -1) )\n                Q.append( (v, -1) )", 'R-C02-methods'),
     _m('methods-succ-orientation', GENDAG, "                    top._dag.all_constraints.add( (blk, v) )", "                    top._dag.all_constraints.add( (v, blk) )", 'R-C02-methods'),
@@ -1181,6 +1417,8 @@ MUTANTS = [
 ]
 
 EQUIV = [
+    _m('constraint-sign-ifexp', L2, "        sign = 1 # RD(x) < U is 1, RD(x) > U is -1\n        if isinstance( x1, ValueConstraint ):\n          sign = -1\n          x0, x1 = x1, x0 # Make sure x0 is RD/WR(...) and x1 is U(...)\n",
+       "        sign = -1 if isinstance( x1, ValueConstraint ) else 1\n        if sign == -1:\n          x0, x1 = x1, x0 # Make sure x0 is RD/WR(...) and x1 is U(...)\n"),
     _m('explicit-edge-helper', GENDAG, "              if sign == 1: # RD/WR(x) < U is 1, RD/WR(x) > U is -1\n                # eq_blk == RD/WR(x) < co_blk\n                U_U.add( (eq_blk, co_blk) )\n                constraint_objs[ (eq_blk, co_blk) ].add( obj )\n              else:\n                # co_blk < RD/WR(x) == eq_blk\n                U_U.add( (co_blk, eq_blk) )\n                constraint_objs[ (co_blk, eq_blk) ].add( obj )",
        "              if sign == 1:\n                edge = (eq_blk, co_blk)\n              else:\n                edge = (co_blk, eq_blk)\n              U_U.add( edge )\n              constraint_objs[ edge ].add( obj )"),
     _m('greenlet-vertex-branches-flipped', GREEN, "      if blk in greenlet_upblks:\n        wrapped = wrap_greenlet( blk )\n        blk_greenlet_mapping[ blk ] = wrapped\n        new_upblks.add( wrapped )\n      else:\n        new_upblks.add( blk )",
